@@ -642,6 +642,42 @@ UNITS["v_constants"] = dict(
              ensures=[("C12.details_merge.keeps_only_agreed", "merging two possible states keeps a constant only when both sides carry that same constant",
                        "r.value is Some ==> self.value == r.value && other.value == r.value")],
              safety_id="C12.details_merge.safety"),
+        dict(id="local_env_merge", file="src/compiler/state.rs", impl="impl LocalEnv", name="merge",
+             orig_sig="fn merge(mut self, other: Self) -> Self",
+             sig="#[verifier::loop_isolation(false)]\npub fn local_env_merge(this0: LocalEnv, other: LocalEnv) -> (r: LocalEnv)",
+             body_start="let mut this = this0;",
+             rewrites=[RW_SELF, dict(**{"from": "for (ident, other_details) in other.bindings {", "count": 1,
+                               "to": """let ghost __self0 = this.bindings.m@;
+        let ghost mut __done: Set<u64> = Set::empty();
+        let mut __entries = other.bindings.into_entries();
+        while __entries.len() > 0
+            invariant
+                forall|i: int| 0 <= i < __entries@.len() ==> other.bindings.m@.dom().contains((#[trigger] __entries@[i]).0.id) && other.bindings.m@[__entries@[i].0.id] == __entries@[i].1 && !__done.contains(__entries@[i].0.id),
+                forall|i: int, j: int| 0 <= i < j < __entries@.len() ==> (#[trigger] __entries@[i]).0.id != (#[trigger] __entries@[j]).0.id,
+                forall|id: u64| other.bindings.m@.dom().contains(id) ==> (#[trigger] __done.contains(id)) || exists|i: int| 0 <= i < __entries@.len() && (#[trigger] __entries@[i]).0.id == id,
+                forall|id: u64| !(#[trigger] __done.contains(id)) ==> (this.bindings.m@.dom().contains(id) == __self0.dom().contains(id)) && (__self0.dom().contains(id) ==> this.bindings.m@[id] == __self0[id]),
+                forall|id: u64| (#[trigger] this.bindings.m@.dom().contains(id)) ==> (__self0.dom().contains(id) || other.bindings.m@.dom().contains(id)) && (this.bindings.m@[id].value is Some ==> (__self0.dom().contains(id) ==> __self0[id].value == this.bindings.m@[id].value) && (__done.contains(id) && other.bindings.m@.dom().contains(id) ==> other.bindings.m@[id].value == this.bindings.m@[id].value)),
+                forall|id: u64| (#[trigger] __done.contains(id)) ==> other.bindings.m@.dom().contains(id) && this.bindings.m@.dom().contains(id),
+            decreases __entries@.len(),
+        {
+            let ghost __before = __entries@;
+            let ghost __done0 = __done;
+            let (ident, other_details) = __entries.pop().unwrap();
+            proof {
+                __done = __done.insert(ident.id);
+                assert forall|id: u64| other.bindings.m@.dom().contains(id) implies (#[trigger] __done.contains(id)) || exists|i: int| 0 <= i < __entries@.len() && (#[trigger] __entries@[i]).0.id == id by {
+                    if !__done0.contains(id) && id != ident.id {
+                        let i = choose|i: int| 0 <= i < __before.len() && (#[trigger] __before[i]).0.id == id;
+                        assert(__before[__before.len() - 1].0.id == ident.id);
+                        assert(i < __before.len() - 1);
+                        assert(__entries@[i] == __before[i]);
+                    }
+                }
+            }""",
+                               "why": "consuming HashMap iteration `for (k, v) in map` = each entry exactly once in some order (into_entries + pop); loop invariant injected here because the loop is produced by this rewrite"})],
+             ensures=[("C12.local_env_merge.keeps_only_agreed", "merging the variable environments of two control-flow paths keeps a constant for a variable only if every path that knows the variable carries that same constant",
+                       "forall|id: u64| (#[trigger] const_of_local(r, id)) is Some ==> (binding(this0, id) is Some ==> opt_const(binding(this0, id)) == const_of_local(r, id)) && (binding(other, id) is Some ==> opt_const(binding(other, id)) == const_of_local(r, id))")],
+             safety_id="C12.local_env_merge.safety"),
         dict(id="variable_resolve_constant", file="src/compiler/expression/variable.rs", impl="impl Expression for Variable", name="resolve_constant",
              orig_sig="fn resolve_constant(&self, state: &TypeState) -> Option<Value>",
              wrap=("impl Variable {", "}"), sig="pub fn resolve_constant(&self, state: &TypeState) -> (r: Option<Value>)",
@@ -708,7 +744,7 @@ UNITS["v_op_constant"] = dict(
 
 # ------------------------------------------------------------------------------------------------
 UNITS["v_reported_paths"] = dict(
-    prop=["C16"], tier="q", prelude=["compiler_q.rs"],
+    prop=["C16"], tier="q", prelude=["compiler_q.rs"], native_witness={"C16": ["reported_paths"]},
     fns=[
         dict(id="compile_query", file="src/compiler/compiler.rs", impl="impl<'a> Compiler<'a>", name="compile_query",
              orig_sig="fn compile_query(&mut self, node: Node<ast::Query>, state: &mut TypeState) -> Option<Query>",
@@ -754,5 +790,43 @@ UNITS["v_assign_types"] = dict(
              "self is Single ==> r.state.writes@.len() >= 1 && r.state.writes@.last().target == self->Single_target.id@ && members(r.state.writes@.last().type_def) == members(self->Single_expr.spec_type(*state))"),
         ],
         safety_id="C08.variant_type_info.safety",
+    )],
+)
+
+# ------------------------------------------------------------------------------------------------
+def ty_clause(opset, text, oid):
+    return (oid, text,
+            "(%s) ==> forall|a: int, b: int| #![trigger op_table(self.opcode, a, b)] self.lhs.spec_type(*state).m@.contains(a) && self.rhs.spec_type(self.lhs.spec_state(*state)).m@.contains(b) ==> (match op_table(self.opcode, a, b) { TOut::Ok(m) => r.result.m@.contains(m), TOut::OkOrNan(m) => r.result.m@.contains(m), TOut::Err => r.result.fall@ })" % opset)
+
+
+UNITS["v_op_types"] = dict(
+    prop=["C01", "C02"], tier="q", prelude=["optypes.rs"],
+    fns=[dict(
+        id="op_type_info", file=OPRS, impl="impl Expression for Op", name="type_info",
+        orig_sig="fn type_info(&self, state: &TypeState) -> TypeInfo",
+        wrap=("impl Op {", "}"), sig="pub fn type_info(&self, state: &TypeState) -> (r: TypeInfo)",
+        rewrites=[
+            dict(**{"from": "use crate::value::Kind as K;", "to": "", "count": 1, "why": "K is the prelude kind constructor type"}),
+            RW_USE_OPCODE,
+            dict(**{"from": r"let maybe_rhs = \|state: &mut TypeState\| \{\s*let rhs_info = self\.rhs\.type_info\(state\);\s*\*state = state\.clone\(\)\.merge\(rhs_info\.state\);\s*rhs_info\.result\s*\};", "regex": True, "count": 1,
+                    "to": "", "why": "closure taking &mut TypeState -> prelude fn maybe_rhs(&self.rhs, state) with the closure's contract (result = the rhs type)"}),
+            dict(**{"from": "maybe_rhs(&mut state)", "to": "maybe_rhs(&self.rhs, &mut state)", "why": "see above"}),
+            dict(**{"from": "lhs_value == Some(Value::Boolean(false))", "to": "opt_value_eq_bool(&lhs_value, false)", "why": "derived PartialEq on Option<Value>"}),
+            dict(**{"from": "lhs_value == Some(Value::Boolean(true))", "to": "opt_value_eq_bool(&lhs_value, true)", "why": "derived PartialEq on Option<Value>"}),
+        ],
+        ensures=[
+            ty_clause("self.opcode is Add || self.opcode is Sub || self.opcode is Mul", "for + - *: every result the runtime helper can produce for operands of the operands' kinds belongs to the reported kind, and if the helper can fail on some such operands (other than the NaN case) the expression is typed fallible", "C01.op.arith_sound"),
+            ty_clause("self.opcode is Eq || self.opcode is Ne || self.opcode is Gt || self.opcode is Ge || self.opcode is Lt || self.opcode is Le", "for comparisons: the result kind contains boolean and incomparable operand kinds make the expression fallible", "C01.op.compare_sound"),
+            ("C02.op.operand_fallibility", "an eager operator whose operand is fallible is fallible",
+             "(self.opcode is Add || self.opcode is Sub || self.opcode is Mul || self.opcode is Eq || self.opcode is Ne || self.opcode is Gt || self.opcode is Ge || self.opcode is Lt || self.opcode is Le) && (self.lhs.spec_type(*state).fall@ || self.rhs.spec_type(self.lhs.spec_state(*state)).fall@) ==> r.result.fall@"),
+            ("C02.op.div_infallible_only_safe", "`/` is typed infallible only when the divisor is a compile-time constant that is a non-zero integer or a normal float and the dividend can only be an integer or a float; its kind is float",
+             "self.opcode is Div ==> r.result.m@ == set![FLOAT] && (!r.result.fall@ ==> (self.lhs.spec_type(*state).m@ == set![INTEGER] || self.lhs.spec_type(*state).m@ == set![FLOAT]) && (match self.rhs.spec_const(self.lhs.spec_state(*state)) { Some(Value::Integer(v)) => v != 0, Some(Value::Float(f)) => f.spec_normal(), _ => false }))"),
+            ("C01.op.err_union", "`a ?? b` admits every value of a and of b; it is fallible only if both are",
+             "self.opcode is Err ==> self.lhs.spec_type(*state).m@.union(self.rhs.spec_type(self.lhs.spec_state(*state)).m@).subset_of(r.result.m@) && r.result.fall@ == (self.lhs.spec_type(*state).fall@ && self.rhs.spec_type(self.lhs.spec_state(*state)).fall@)"),
+            ("C01.op.or_sound", "`a || b` admits every non-null value of a (when a can be truthy) and every value of b (when a can be null/false)",
+             "self.opcode is Or ==> ((self.lhs.spec_type(*state).m@.contains(NULL) || self.lhs.spec_type(*state).m@.contains(BOOLEAN)) && !(self.lhs.spec_const(*state) == Some(Value::Boolean(true))) ==> self.rhs.spec_type(self.lhs.spec_state(*state)).m@.subset_of(r.result.m@)) && (!(self.lhs.spec_type(*state).m@ == set![NULL]) && !(self.lhs.spec_const(*state) == Some(Value::Boolean(false))) ==> self.lhs.spec_type(*state).m@.remove(NULL).subset_of(r.result.m@))"),
+            ("C01.op.and_boolean", "`a && b` is boolean", "self.opcode is And ==> r.result.m@ == set![BOOLEAN]"),
+        ],
+        safety_id="C01.op_type_info.safety", safety_text="`unreachable!(...)` arms are unreachable",
     )],
 )
